@@ -840,7 +840,7 @@ class VmTarSuite(Suite):
                 "From DH Require Import Spec.VmTar Model.VmTar.\n")
 
     def generate(self, rng, tier):
-        n = 1500 if tier == "thorough" else 120
+        n = 1200 if tier == "thorough" else 120
         cases = [{"stream": "sample", "access": a} for a in ("open", "gz", "iter", "visortarfile")]
         for i in range(n):
             k = rng.weighted([("wf", 5), ("long", 2), ("malformed", 3), ("plain", 1)])
